@@ -290,7 +290,7 @@ struct World
   std::deque<SinkInfo> sinks;              // sink INSTANCES (a name from the pool can be re-created after the previous instance died)
   std::map<std::string, int> sink_by_name; // name -> most recent instance
   std::deque<Stmt> stmts;
-  bool lbl_filter_added_late{false}, lbl_sink_level_changed{false};
+  bool lbl_filter_added_late{false}, lbl_sink_level_changed{false}, lbl_bt_control{false};
   std::deque<FlushRec> flushes;
   std::vector<JEntry> journal;
   std::vector<std::string> notes; // error notifier
